@@ -145,13 +145,15 @@ def exec_reject(item):
     with open(good, "w") as f:
         f.write("\n".join(GOOD) + "\n")
     r.transitions = 1
+    extra = list(item.get("argv", ()))
+    extra = [a.replace("<D>", d) for a in extra]
     try:
-        status, so, se, exc = drivers.d_main(["-f", bad, good, "-p", "1"])
+        status, so, se, exc = drivers.d_main(["-f", bad, good, "-p", "1"] + extra)
     except explore.Timeout:
         r.violations.append({"key": ("hang_in_classification", item["mut"][0][:3]), "detail": {"text": lines[:30]}, "item": dict(item, text=lines)})
         return r
     if exc is not None:
-        r.violations.append({"key": (f"escaped:{exc[0]}@{exc[1]}", "main"), "detail": {"message": exc[2]}, "item": dict(item, text=lines)})
+        r.violations.append({"key": (f"escaped:{exc[0]}@{exc[1]}", "main" + ("" if not extra else ":" + extra[0])), "detail": {"message": exc[2], "argv": extra}, "item": dict(item, text=lines)})
         return r
     rejected = "Error while processing" in se or "Error while processing" in so
     if not rejected:
@@ -166,11 +168,15 @@ def exec_reject(item):
     msg = se + so
     if not re.search(r"Error while processing .*bad\.vhd", msg) or not re.search(r"[Ll]ine\s*:?\s*\d+", msg):
         r.violations.append({"key": ("rejection_message_not_located", "main"), "detail": {"message": msg[:300]}, "item": dict(item, text=lines)})
-    if "good.vhd" not in so:
+    if "good.vhd" not in so and "-of" not in extra:
         r.violations.append({"key": ("file_after_rejected_file_not_processed", "main"), "detail": {"stdout": so[:200]}, "item": dict(item, text=lines)})
     if r.sample is None:
         r.sample = {"id": item["id"], "mode": "rejection", "first_line_of_message": msg.strip().split("\n")[0][:120]}
     return r
+
+
+OUTPUT_OPTIONS = (["--quality_report", "<D>/q.json"], ["--json", "<D>/j.json"], ["--junit", "<D>/j.xml"], ["--json", "<D>/j.json", "--quality_report", "<D>/q.json", "--junit", "<D>/j.xml"],
+                  ["-of", "syntastic"], ["-of", "summary"], ["--fix"], ["-ap"], ["--fix", "--backup"], ["--style", "jcl"])
 
 
 def reject_items(seeds):
@@ -179,6 +185,10 @@ def reject_items(seeds):
         pos, muts = mutations(sid)
         for m in muts:
             out.append({"id": f"{sid}#{m[0]}@{m[1]}", "seed": sid, "pos": pos, "mut": list(m)})
+    # a file that is certainly rejected, under every output option
+    for txt_id, txt in (("parsefail", ["entity pf is", "  port (", "end architecture;;", "architecture of is begin"]), ("parsefail2", ["architecture a of b is", "begin", "  x <= ;;", "end process;"])):
+        for k, opts in enumerate(OUTPUT_OPTIONS):
+            out.append({"id": f"{txt_id}#opt{k}", "seed": seeds[0], "pos": [], "mut": ["txt", 0], "text": txt, "argv": opts})
     return out
 
 
